@@ -15,7 +15,8 @@
    All statements quantify over every destination kind, source kind, form,
    value, destination capacity and buffer content. *)
 From Coq Require Import ZArith Bool String Ascii List Floats.SpecFloat.
-From Verif Require Import Util Ints Strconv Floats AssignVal Assign AssignSpec AssignText AssignMatrix AssignThms.
+From Verif Require Import Util Ints Strconv Floats AssignVal Assign AssignSpec AssignText AssignMatrix AssignThms
+     AssignSeqVal AssignSeq AssignSeqSpec AssignSeqThms.
 Import ListNotations.
 Local Open Scope Z_scope.
 
@@ -135,6 +136,39 @@ Theorem C19_old_code_elsewhere : forall dcap buf dst src,
 Proof. exact old_code_elsewhere. Qed.
 Print Assumptions C19_old_code_elsewhere.
 
+(* ---------- histories: reused sources, reused destinations, one buffer ---------- *)
+(* Calls come in sequences over objects that come back: one []byte rewritten in place
+   between the calls, one *string pointed at other text, one *int holding another number,
+   one destination variable assigned again, one accumulating buffer.  [run_seq]
+   (Model/AssignSeq.v) is the single call iterated on the values present at each step -
+   the model has no other state - and [seq_allowed] (Spec/AssignSeqSpec.v) the histories
+   the property admits: every step an admissible single call ([step_allowed]: [expect] in
+   one of the two readings, an admissible buffer content) on the destination the step
+   before left ([DstReuse]) or on the one the step names ([DstFresh]).  Every history of
+   any length over well-formed non-nil sources is admissible, and never panics. *)
+Theorem C19_history : forall rf dm l cur buf,
+  Forall (step_ok rf) l ->
+  exists ts, run_seq true dm cur buf l = map sdone ts /\ In ts (seq_allowed rf dm cur buf l).
+Proof. intros rf dm l cur buf. apply seq_meets. Qed.
+Print Assumptions C19_history.
+
+(* what membership in [seq_allowed] says, step by step: the head is an admissible single
+   call on the current destination and buffer, the tail an admissible history from what
+   the head left *)
+Theorem C19_history_steps : forall rf dm cur buf st r t ts,
+  In (t :: ts) (seq_allowed rf dm cur buf (st :: r)) ->
+  In t (step_allowed rf (step_dest dm cur st) (h_src st) buf) /\
+  In ts (seq_allowed rf dm (Some (snd (fst t))) (snd t) r).
+Proof. exact seq_allowed_cons. Qed.
+Print Assumptions C19_history_steps.
+
+(* the histories are run with destination capacity 0: the capacity decides the ownership
+   class of a stored text only, which a history does not observe *)
+Theorem C19_history_cap_irrelevant : forall strfix c1 c2 buf dst src,
+  sout_of (assign strfix c1 buf dst src) = sout_of (assign strfix c2 buf dst src).
+Proof. exact cap_irrelevant. Qed.
+Print Assumptions C19_history_cap_irrelevant.
+
 (* ---------- non-vacuity and the silent inputs ---------- *)
 Definition rf0 (f : spec_float) : string := match render_float f with Some t => t | None => ""%string end.
 Definition f64_2_5 : spec_float := f64_of_decimal false 25 (-1).
@@ -175,3 +209,24 @@ Example C19_ex_silent :
   result (assign true 0 None (DPtr (VF32 f64_2_5)) (SPtr (VStr "1e39"))) = Some (true, DPtr (VF32 (S754_infinity false))) /\
   silent (KI KInt8) (SVal (VStr "127")) = false /\ silent KF32 (SVal (VStr "0.1")) = false.
 Proof. repeat split; vm_compute; reflexivity. Qed.
+(* a history: one source object holding "123", then "456", then "-7x", into one reused int16
+   that held 5 - stored 123, stored 456, refused with 456 kept; one admissible history *)
+Definition hist_ex : list hstep :=
+  [ {| h_dst := DPtr (VInt KInt16 5); h_src := SVal (VBytes "123") |};
+    {| h_dst := DPtr (VInt KInt16 5); h_src := SVal (VBytes "456") |};
+    {| h_dst := DPtr (VInt KInt16 5); h_src := SVal (VBytes "-7x") |} ].
+Example C19_ex_history :
+  Forall (step_ok rf0) hist_ex /\
+  run_seq true DstReuse None None hist_ex =
+    [SDone true (DPtr (VInt KInt16 123)) None; SDone true (DPtr (VInt KInt16 456)) None;
+     SDone false (DPtr (VInt KInt16 456)) None] /\
+  (forall ts, In ts (seq_allowed rf0 DstReuse None None hist_ex) ->
+     ts = [(true, DPtr (VInt KInt16 123), None); (true, DPtr (VInt KInt16 456), None);
+           (false, DPtr (VInt KInt16 456), None)]) /\
+  run_seq true DstFresh None None hist_ex =
+    [SDone true (DPtr (VInt KInt16 123)) None; SDone true (DPtr (VInt KInt16 456)) None;
+     SDone false (DPtr (VInt KInt16 5)) None].
+Proof.
+  split; [repeat constructor|]. split; [vm_compute; reflexivity|]. split; [|vm_compute; reflexivity].
+  intros ts I. vm_compute in I. repeat (destruct I as [I|I]; [symmetry; exact I|]). destruct I.
+Qed.
